@@ -367,10 +367,22 @@ def c16e(ctx):
         f = ctx.fn('%s:%s.load_tiles' % (rel, cname))
         g = f.cfg
         loops = [s for s in f.walk() if isinstance(s, ast.For) and unparse(s.iter) == 'tiles']
-        if not loops:
+        comps = [c for c in f.walk() if isinstance(c, (ast.ListComp, ast.GeneratorExp, ast.SetComp)) and len(c.generators) == 1 and
+                 unparse(c.generators[0].iter) == 'tiles']
+        if not loops and not comps:
             ctx.bad('%s.load_tiles:loop' % cname, 'no loop over the tiles', f)
             continue
         uses_all, ok = [], True
+        for c in comps:
+            # [<uses t.coord> for t in tiles if <filter>]: the filter must exclude tiles without coordinate
+            tv = unparse(c.generators[0].target)
+            cu = [x for x in ast.walk(c.elt) if isinstance(x, ast.Attribute) and x.attr == 'coord' and unparse(x.value) == tv]
+            if not cu:
+                continue
+            excl = any(at.op == '==' and ('%s.coord' % tv) in at.text and 'None' in at.text and p is False
+                       for t in c.generators[0].ifs for at, p in implied(t, True))
+            ok = ok and excl
+            uses_all += cu
         for lp in sorted(loops, key=order_key):
             tv = unparse(lp.target)
             body = ast.Module(body=lp.body, type_ignores=[])
